@@ -791,6 +791,7 @@ class ImplSpec:
         self.header_rewrites = []
         self.nested = {}
         self.sigrewrites = []
+        self.lazy = None
 
 
 def apply_contract(sig, clauses, ret="r"):
@@ -900,6 +901,17 @@ def process_fn(fn, spec, handle, stats, canary):
             raise ExtractError("declared rewrite on %s no longer matches exactly once: %s" % (name, old))
         body = body[: ms[0].start()] + new + body[ms[0].end():]
         stats["declared_rewrites"] += 1
+    if spec.lazy:
+        # R11: `Box::new(move || BODY)` (a deferred subscription) becomes `Lazy::defer(<captured>)`;
+        # the closure body itself is NOT verified in this unit (stated in the unit header)
+        for _ in range(4):
+            lm = re.search(r"Box::new\(\s*move\s*\|\|\s*\{", body)
+            if not lm:
+                break
+            op_ = body.index("(", lm.start())
+            cl_ = match_close(body, op_, "(", ")")
+            body = body[:lm.start()] + "Lazy::defer(%s)" % spec.lazy + body[cl_ + 1:]
+            stats["R11"] = stats.get("R11", 0) + 1
     body = rewrite_iter_adapters(body, stats)
     body = rewrite_map_or(body, stats)
     body = drop_attrs_and_docs(body)
@@ -1333,6 +1345,9 @@ def generate(template_path, variant, canary=False):
                     for x in t[2:]:
                         if x.startswith("ret="):
                             spec.ret[t[1]] = x[4:]
+                elif t[0] == "@@lazyclosures":
+                    spec.lazy = t[1]
+                    i += 1
                 elif t[0] == "@@sigrewrite":
                     rest_ = l.split("::", 1)[1]
                     old_, new_ = rest_.split("==>", 1)
